@@ -1,4 +1,5 @@
 #include <cstring>
+#include <limits>
 
 #include <occa/types/bits.hpp>
 #include <occa/types/primitive.hpp>
@@ -672,18 +673,51 @@ namespace occa {
     return primitive();
   }
 
+  // Integer division traps (SIGFPE) on a zero divisor and on min / -1:
+  //   raise an error for the first, use the wrapped result for the second
+  template <class TM>
+  static inline decltype(TM() / TM()) checkedDiv(const primitive &a, const primitive &b) {
+    typedef decltype(TM() / TM()) ret_t;
+    const ret_t av = a.to<TM>();
+    const ret_t bv = b.to<TM>();
+    if (!bv) {
+      OCCA_FORCE_ERROR("Division by zero");
+    }
+    if (std::numeric_limits<ret_t>::is_signed &&
+        (bv == (ret_t) -1) &&
+        (av == std::numeric_limits<ret_t>::min())) {
+      return av;
+    }
+    return av / bv;
+  }
+
+  template <class TM>
+  static inline decltype(TM() % TM()) checkedMod(const primitive &a, const primitive &b) {
+    typedef decltype(TM() % TM()) ret_t;
+    const ret_t av = a.to<TM>();
+    const ret_t bv = b.to<TM>();
+    if (!bv) {
+      OCCA_FORCE_ERROR("Division by zero");
+    }
+    if (std::numeric_limits<ret_t>::is_signed &&
+        (bv == (ret_t) -1)) {
+      return 0;
+    }
+    return av % bv;
+  }
+
   primitive primitive::div(const primitive &a, const primitive &b) {
     const int retType = (a.type > b.type) ? a.type : b.type;
     switch(retType) {
-      case primitiveType::bool_   : return primitive(a.to<bool>()     / b.to<bool>());
-      case primitiveType::int8_   : return primitive(a.to<int8_t>()   / b.to<int8_t>());
-      case primitiveType::uint8_  : return primitive(a.to<uint8_t>()  / b.to<uint8_t>());
-      case primitiveType::int16_  : return primitive(a.to<int16_t>()  / b.to<int16_t>());
-      case primitiveType::uint16_ : return primitive(a.to<uint16_t>() / b.to<uint16_t>());
-      case primitiveType::int32_  : return primitive(a.to<int32_t>()  / b.to<int32_t>());
-      case primitiveType::uint32_ : return primitive(a.to<uint32_t>() / b.to<uint32_t>());
-      case primitiveType::int64_  : return primitive(a.to<int64_t>()  / b.to<int64_t>());
-      case primitiveType::uint64_ : return primitive(a.to<uint64_t>() / b.to<uint64_t>());
+      case primitiveType::bool_   : return primitive(checkedDiv<bool>(a, b));
+      case primitiveType::int8_   : return primitive(checkedDiv<int8_t>(a, b));
+      case primitiveType::uint8_  : return primitive(checkedDiv<uint8_t>(a, b));
+      case primitiveType::int16_  : return primitive(checkedDiv<int16_t>(a, b));
+      case primitiveType::uint16_ : return primitive(checkedDiv<uint16_t>(a, b));
+      case primitiveType::int32_  : return primitive(checkedDiv<int32_t>(a, b));
+      case primitiveType::uint32_ : return primitive(checkedDiv<uint32_t>(a, b));
+      case primitiveType::int64_  : return primitive(checkedDiv<int64_t>(a, b));
+      case primitiveType::uint64_ : return primitive(checkedDiv<uint64_t>(a, b));
       case primitiveType::float_  : return primitive(a.to<float>()    / b.to<float>());
       case primitiveType::double_ : return primitive(a.to<double>()   / b.to<double>());
       default: ;
@@ -694,15 +728,15 @@ namespace occa {
   primitive primitive::mod(const primitive &a, const primitive &b) {
     const int retType = (a.type > b.type) ? a.type : b.type;
     switch(retType) {
-      case primitiveType::bool_   : return primitive(a.to<bool>()     % b.to<bool>());
-      case primitiveType::int8_   : return primitive(a.to<int8_t>()   % b.to<int8_t>());
-      case primitiveType::uint8_  : return primitive(a.to<uint8_t>()  % b.to<uint8_t>());
-      case primitiveType::int16_  : return primitive(a.to<int16_t>()  % b.to<int16_t>());
-      case primitiveType::uint16_ : return primitive(a.to<uint16_t>() % b.to<uint16_t>());
-      case primitiveType::int32_  : return primitive(a.to<int32_t>()  % b.to<int32_t>());
-      case primitiveType::uint32_ : return primitive(a.to<uint32_t>() % b.to<uint32_t>());
-      case primitiveType::int64_  : return primitive(a.to<int64_t>()  % b.to<int64_t>());
-      case primitiveType::uint64_ : return primitive(a.to<uint64_t>() % b.to<uint64_t>());
+      case primitiveType::bool_   : return primitive(checkedMod<bool>(a, b));
+      case primitiveType::int8_   : return primitive(checkedMod<int8_t>(a, b));
+      case primitiveType::uint8_  : return primitive(checkedMod<uint8_t>(a, b));
+      case primitiveType::int16_  : return primitive(checkedMod<int16_t>(a, b));
+      case primitiveType::uint16_ : return primitive(checkedMod<uint16_t>(a, b));
+      case primitiveType::int32_  : return primitive(checkedMod<int32_t>(a, b));
+      case primitiveType::uint32_ : return primitive(checkedMod<uint32_t>(a, b));
+      case primitiveType::int64_  : return primitive(checkedMod<int64_t>(a, b));
+      case primitiveType::uint64_ : return primitive(checkedMod<uint64_t>(a, b));
       case primitiveType::float_  : OCCA_FORCE_ERROR("Cannot apply operator % to float type"); break;
       case primitiveType::double_ : OCCA_FORCE_ERROR("Cannot apply operator % to double type"); break;
       default: ;
@@ -873,15 +907,15 @@ namespace occa {
   primitive& primitive::divEq(primitive &a, const primitive &b) {
     const int retType = (a.type > b.type) ? a.type : b.type;
     switch(retType) {
-      case primitiveType::bool_   : a = (a.to<bool>()     / b.to<bool>());     break;
-      case primitiveType::int8_   : a = (a.to<int8_t>()   / b.to<int8_t>());   break;
-      case primitiveType::uint8_  : a = (a.to<uint8_t>()  / b.to<uint8_t>());  break;
-      case primitiveType::int16_  : a = (a.to<int16_t>()  / b.to<int16_t>());  break;
-      case primitiveType::uint16_ : a = (a.to<uint16_t>() / b.to<uint16_t>()); break;
-      case primitiveType::int32_  : a = (a.to<int32_t>()  / b.to<int32_t>());  break;
-      case primitiveType::uint32_ : a = (a.to<uint32_t>() / b.to<uint32_t>()); break;
-      case primitiveType::int64_  : a = (a.to<int64_t>()  / b.to<int64_t>());  break;
-      case primitiveType::uint64_ : a = (a.to<uint64_t>() / b.to<uint64_t>()); break;
+      case primitiveType::bool_   : a = checkedDiv<bool>(a, b);     break;
+      case primitiveType::int8_   : a = checkedDiv<int8_t>(a, b);   break;
+      case primitiveType::uint8_  : a = checkedDiv<uint8_t>(a, b);  break;
+      case primitiveType::int16_  : a = checkedDiv<int16_t>(a, b);  break;
+      case primitiveType::uint16_ : a = checkedDiv<uint16_t>(a, b); break;
+      case primitiveType::int32_  : a = checkedDiv<int32_t>(a, b);  break;
+      case primitiveType::uint32_ : a = checkedDiv<uint32_t>(a, b); break;
+      case primitiveType::int64_  : a = checkedDiv<int64_t>(a, b);  break;
+      case primitiveType::uint64_ : a = checkedDiv<uint64_t>(a, b); break;
       case primitiveType::float_  : a = (a.to<float>()    / b.to<float>());    break;
       case primitiveType::double_ : a = (a.to<double>()   / b.to<double>());   break;
       default: ;
@@ -892,15 +926,15 @@ namespace occa {
   primitive& primitive::modEq(primitive &a, const primitive &b) {
     const int retType = (a.type > b.type) ? a.type : b.type;
     switch(retType) {
-      case primitiveType::bool_   : a = (a.to<bool>()     % b.to<bool>());     break;
-      case primitiveType::int8_   : a = (a.to<int8_t>()   % b.to<int8_t>());   break;
-      case primitiveType::uint8_  : a = (a.to<uint8_t>()  % b.to<uint8_t>());  break;
-      case primitiveType::int16_  : a = (a.to<int16_t>()  % b.to<int16_t>());  break;
-      case primitiveType::uint16_ : a = (a.to<uint16_t>() % b.to<uint16_t>()); break;
-      case primitiveType::int32_  : a = (a.to<int32_t>()  % b.to<int32_t>());  break;
-      case primitiveType::uint32_ : a = (a.to<uint32_t>() % b.to<uint32_t>()); break;
-      case primitiveType::int64_  : a = (a.to<int64_t>()  % b.to<int64_t>());  break;
-      case primitiveType::uint64_ : a = (a.to<uint64_t>() % b.to<uint64_t>()); break;
+      case primitiveType::bool_   : a = checkedMod<bool>(a, b);     break;
+      case primitiveType::int8_   : a = checkedMod<int8_t>(a, b);   break;
+      case primitiveType::uint8_  : a = checkedMod<uint8_t>(a, b);  break;
+      case primitiveType::int16_  : a = checkedMod<int16_t>(a, b);  break;
+      case primitiveType::uint16_ : a = checkedMod<uint16_t>(a, b); break;
+      case primitiveType::int32_  : a = checkedMod<int32_t>(a, b);  break;
+      case primitiveType::uint32_ : a = checkedMod<uint32_t>(a, b); break;
+      case primitiveType::int64_  : a = checkedMod<int64_t>(a, b);  break;
+      case primitiveType::uint64_ : a = checkedMod<uint64_t>(a, b); break;
       case primitiveType::float_  : OCCA_FORCE_ERROR("Cannot apply operator % to float type"); break;
       case primitiveType::double_ : OCCA_FORCE_ERROR("Cannot apply operator % to double type"); break;
       default: ;
